@@ -3,7 +3,7 @@ from engine.util import *
 
 LEVEL = "other"
 MIN_OBLIGATIONS = 12
-TECHNIQUE = "CFG must-insert rule on the attribute loop, literal key table of allAttributes() vs accessors, return-expression delegation to QJsonDocument, mode projected on m_compact; mode provenance from formatToJson's argument to m_compact (no shared instance fixed by the first caller); fresh-object rule (the serialised object starts empty in every call); setAttribute stores on every path (no skip decided by the converting QVariant equality); conversion helpers evaluated by cases over every numeric meta type (float and the narrow integers included)"
+TECHNIQUE = "CFG must-insert rule on the attribute loop, literal key table of allAttributes() vs accessors, return-expression delegation to QJsonDocument, mode projected on m_compact; mode provenance from formatToJson's argument to m_compact (no shared instance fixed by the first caller); fresh-object rule (the serialised object starts empty in every call); setAttribute stores on every path (no skip decided by the converting QVariant equality); conversion helpers evaluated by cases over every numeric meta type (float and the narrow integers included); the LogMessage copy-constructor rule (every member from the source, C strings re-homed in owned buffers) is claimed for the fields a record behind the hand-off shows (shared with C03)"
 LEVEL_TEXT = ("Decides completeness and delegation structurally for all messages: every entry of allAttributes() is inserted unconditionally under its own key through "
               "QJsonValue::fromVariant, allAttributes() binds each built-in key to the same-named accessor and overlays the custom attributes, and the result is exactly "
               "QJsonDocument(obj).toJson(Compact iff compact) decoded as UTF-8 with no further editing. JSON validity/escaping and round-trip of values are Qt's (trusted).")
